@@ -97,7 +97,10 @@ def run_workers(ck, n_prog, n_sched, n_inputs):
                     pass
     recs.sort(key=lambda r: [0 if r["tag"].startswith("c") else 1] + [int(x) for x in re.findall(r"\d+", r["tag"])])
     for r in recs:
-        if r["tag"].startswith("c") and r.get("status") != "ok":
+        # only the UNSCHEDULED corpus programs (v0, or a front-end rejection of the source itself) must always compile;
+        # a scheduled variant that exo refuses to compile is a refusal like for generated programs
+        unscheduled = r["tag"].endswith(".v0") or "." not in r["tag"]
+        if r["tag"].startswith("c") and unscheduled and r.get("status") != "ok":
             ck.broken_obligation("corpus:" + r["tag"], "corpus program no longer compiles: %s" % r.get("error", r.get("status")))
     return recs
 
